@@ -170,6 +170,9 @@ class Constructor:
             return isinstance(obj, bool)
         elif type_ is Any:
             return True
+        elif type_ is None:
+            # an annotation may say None for type(None)
+            return obj is None
         else:
             return isinstance(obj, type_)
 
